@@ -64,11 +64,23 @@ SigDigits(c) == LET RECURSIVE strip(_)
                 IN StripLeadingZeros(strip(c))
 \* f64 reading of a decimal text equals the reported value (exact up to 15 significant digits,
 \* same magnitude and 15-digit prefix beyond: exact digits are kept in the text, the value is a float)
+\* the float may print fewer digits than the text has, and rounding to 53 bits may change the 15th digit (with carry):
+\* beyond 15 significant digits the two 15-digit prefixes must be equal or differ by one unit in the last place
+Pad15(d) == SubSeq(d \o "000000000000000", 1, 15)
+RECURSIVE StrNat9(_)
+StrNat9(s) == IF s = "" THEN 0 ELSE StrNat9(SubSeq(s, 1, Len(s) - 1)) * 10 + DigitVal(Ch(s, Len(s)))
+Near15(x, y) ==      \* x, y: 15-digit strings
+  LET hx == StrNat9(SubSeq(x, 1, 7))  lx == StrNat9(SubSeq(x, 8, 15))
+      hy == StrNat9(SubSeq(y, 1, 7))  ly == StrNat9(SubSeq(y, 8, 15)) IN
+  \/ (hx = hy /\ (lx = ly \/ lx = ly + 1 \/ ly = lx + 1))
+  \/ (hx = hy + 1 /\ lx = 0 /\ ly = 99999999)
+  \/ (hy = hx + 1 /\ ly = 0 /\ lx = 99999999)
 ValueMatches(v, txt) ==
   LET a == Canon(v) b == Canon(txt) IN
   IF Len(SigDigits(b)) <= 15 THEN a = b
-  ELSE /\ Len(IntPart(a)) = Len(IntPart(b))
-       /\ SubSeq(SigDigits(a) \o "000000000000000", 1, 15) = SubSeq(SigDigits(b), 1, 15)   \* the float may print fewer digits
+  ELSE LET pa == Pad15(SigDigits(a))  pb == Pad15(SigDigits(b))  la == Len(IntPart(a))  lb == Len(IntPart(b)) IN
+       \/ (la = lb /\ Near15(pa, pb))
+       \/ (la = lb + 1 /\ pa = "100000000000000" /\ pb = "999999999999999")     \* 99...9 rounded up to 100...0
 \* 1/n to 10 digits by long division (n < 10^8)
 RECURSIVE StrNat(_)
 StrNat(s) == IF s = "" THEN 0 ELSE StrNat(SubSeq(s, 1, Len(s) - 1)) * 10 + DigitVal(Ch(s, Len(s)))
